@@ -125,6 +125,9 @@ var c10Dicts = map[string]map[string]string{
 	"none": {},
 	"p":    {"PRODUCT": "bin/app", "MARK": "1"},
 	"q":    {"PRODUCT": "bin/other", "MARK": "2"},
+	// a value that contains another parameter's marker: one left-to-right pass leaves "bin/{NAME}"
+	// (no such product: rejected, deterministically, whatever the iteration order of the dictionary)
+	"r": {"PRODUCT": "bin/{NAME}", "NAME": "app", "MARK": "3", "X1": "1", "X2": "2", "X3": "3"},
 }
 
 func (ch *c10Chain) verify(md intoto.Metadata, dict map[string]string, v c10Variant) (c10Outcome, VerifyObs) {
@@ -166,11 +169,11 @@ func (ch *c10Chain) verify(md intoto.Metadata, dict map[string]string, v c10Vari
 }
 
 func runC10(c *core.Ctx) {
-	R := c.Pick(24, 64)
+	R := c.Pick(16, 64)
 	var variants []c10Variant
 	for _, dsse := range []bool{false, true} {
 		for _, runDir := range []bool{false, true} {
-			for _, th := range []int{1, 2} {
+			for _, th := range []int{0, 1, 2} {
 				for _, dis := range []bool{false, true} {
 					variants = append(variants, c10Variant{Threshold: th, Disagree: dis, DSSE: dsse, RunDir: runDir})
 				}
@@ -178,14 +181,14 @@ func runC10(c *core.Ctx) {
 			variants = append(variants, c10Variant{Threshold: 2, Sublayout: true, DSSE: dsse, RunDir: runDir})
 		}
 	}
-	names := []string{"none", "p", "q"}
+	names := []string{"none", "p", "q", "r"}
 	var histories [][]string
 	var rec func(prefix []string)
 	rec = func(prefix []string) {
 		if len(prefix) > 0 {
 			histories = append(histories, append([]string{}, prefix...))
 		}
-		if len(prefix) == 3 {
+		if len(prefix) == c.Pick(2, 3) {
 			return
 		}
 		for _, n := range names {
@@ -193,10 +196,14 @@ func runC10(c *core.Ctx) {
 		}
 	}
 	rec(nil)
-	if !c.Quick() {
-		r := c.Rand("c10-h4")
-		for i := 0; i < 30; i++ {
-			histories = append(histories, []string{names[r.Intn(3)], names[r.Intn(3)], names[r.Intn(3)], names[r.Intn(3)]})
+	{
+		r := c.Rand("c10-longer")
+		for i := 0; i < c.Pick(12, 30); i++ {
+			h := []string{names[r.Intn(4)], names[r.Intn(4)], names[r.Intn(4)]}
+			if !c.Quick() {
+				h = append(h, names[r.Intn(4)])
+			}
+			histories = append(histories, h)
 		}
 	}
 	same, untouched := int64(0), int64(0)
@@ -321,7 +328,7 @@ func init() {
 	core.Register(&core.Property{
 		ID:    "C10",
 		Level: "exploration",
-		Rule: "chains biased to the anchors: step with one key-authorized and one certificate-authorized link (threshold 1 and 2; the two links agreeing or disagreeing), certificate constraint lists that are not sorted, rules / expected command / inspection run with {PRODUCT} and {MARK} markers, a link whose artifact path needs cleaning (./bin//app) consumed by a MATCH rule, optionally a step delegated to a sublayout; 2 wrappers x 2 entry points; all histories of length<=3 over the dictionaries {none, p (accepting), q (rejecting)} (thorough: + 30 of length 4) on ONE in-memory layout object: every outcome (verdict, summary, executed marker) must equal the outcome of a freshly loaded copy, and the serialisation of the layout object (payload, signatures, dumped envelope), of the key map and of the dictionary must be unchanged after every call; each baseline is repeated R=24 (quick) / 64 (thorough) times and each history R/4 times with fresh maps. " +
+		Rule: "chains biased to the anchors: step with one key-authorized and one certificate-authorized link (threshold 0, 1 and 2; the two links agreeing or disagreeing), certificate constraint lists that are not sorted, rules / expected command / inspection run with {PRODUCT} and {MARK} markers, a link whose artifact path needs cleaning (./bin//app) consumed by a MATCH rule, optionally a step delegated to a sublayout; 2 wrappers x 2 entry points; all histories of length<=2 plus 12 of length 3 (quick) / all of length<=3 plus 30 of length 4 (thorough) over the dictionaries {none, p (accepting), q (rejecting), r (a value containing another parameter's marker)} on ONE in-memory layout object: every outcome (verdict, summary, executed marker) must equal the outcome of a freshly loaded copy, and the serialisation of the layout object (payload, signatures, dumped envelope), of the key map and of the dictionary must be unchanged after every call; each baseline is repeated R=16 (quick) / 64 (thorough) times and each history R/4 times with fresh maps. " +
 			"non-trivial = history of length>=2 or R>=2 with >=2 links in a step; distinct = (variant, history)",
 		Assumptions: []string{"the iteration order taken inside the library is not observable; reported are R, the number of distinct outcomes per case and the number of distinct orders a same-sized probe map showed in the same process"},
 		Workers:     func(string) int { return 16 },
